@@ -248,6 +248,36 @@ def E1_lmpdat_writer_reader(repo, clause):
         obs.append(Ob("E1", clause, r, cs_def[0], stripped,
                       "the comment re-attached to a coefficient line is the stripped comment (no trailing newline inside the stored text)", slot="comment-stripped",
                       positive=bool(ds) and not stripped))
+    # header: "N <kind> types" is written exactly when N > 0 - the guard tests the number it writes (the Coeffs sections use the same count)
+    for c, s_, a in writes:
+        m_ = re.match(r"^%d (atom|bond|angle|dihedral|improper) types\n$", s_ or "")
+        if not m_ or a is None:
+            continue
+        kind_ = m_.group(1)
+        want_attr = "num_%s_types" % kind_
+        gs_ = [(t_, pol_) for t_, pol_, k_ in norm_guards(w, c)]
+        okg = len(gs_) == 1 and gs_[0][1] and isinstance(gs_[0][0], ast.Compare) and is_self_attr(gs_[0][0].left, want_attr) and const_value(gs_[0][0].comparators[0]) == 0 \
+            and isinstance(gs_[0][0].ops[0], (ast.Gt, ast.NotEq))
+        other_attr = None
+        if gs_ and not okg:
+            for y in ast.walk(gs_[0][0]):
+                if isinstance(y, ast.Attribute) and isinstance(y.value, ast.Name) and y.value.id == "self" and y.attr != want_attr:
+                    other_attr = y.attr
+        obs.append(Ob("E1", clause, w, c, okg,
+                      "header line `N %s types` is written when %s" % (kind_, "self.%s > 0, the number it declares" % want_attr if okg else (
+                          "`%s` - a test of self.%s (the TERMS), not of the declared number of types: a kind whose terms are all gone but whose coefficient table remains gets Coeffs lines without a type-count declaration" % (
+                              ast.unparse(gs_[0][0]) if gs_ else "?", other_attr) if other_attr else "an unrecognised condition")),
+                      slot="header-guard:%s" % kind_, positive=other_attr is not None, undecided=not okg and other_attr is None))
+    # whitespace-separated columns: two conversions of one written line are never adjacent (the reader splits on whitespace)
+    for c, s_, a in writes:
+        if not s_ or "%" not in s_:
+            continue
+        adj = re.search(r"%[-+ 0#]*\d*(?:\.\d+)?[dfegsEG]%[-+ 0#]*\d*(?:\.\d+)?[dfegsEG]", s_)
+        if adj or len(re.findall(r"%[-+ 0#]*\d*(?:\.\d+)?[dfeg]", s_)) >= 2:
+            obs.append(Ob("E1", clause, w, c, not adj,
+                          "columns of `%s` are %s" % (s_.strip()[:50], "separated by literal white space" if not adj else
+                                                      "NOT separated (`%s`): a value that fills its field width fuses with its neighbour (e.g. -123.456789 after 0.410000) and the line cannot be split again" % adj.group(0)),
+                          slot="column-separators:%s" % re.sub(r"[^A-Za-z%]+", "", s_)[:24], positive=bool(adj)))
     # per-line state: the label / comment used for a line is (re)defined in the same iteration on every path
     line_loops = [n for n in r.own_nodes() if isinstance(n, ast.For) and any(
         isinstance(x, ast.Call) and isinstance(x.func, ast.Attribute) and x.func.attr == "append" and guard_eq(r, x, "Masses") for x in ast.walk(n))]
@@ -1343,6 +1373,11 @@ def E_extra_fields_order(repo, clause):
                     if not ((nonempty and pol_) or taut or ((k0 == 0 and op_ in (ast.Eq, ast.LtE)) and not pol_)):
                         bad_ = (t_, pol_)
             sl = cp.targets[0].slice
+            if isinstance(sl, ast.Slice):
+                obs.append(Ob("E12", clause, pf, cp, False,
+                              "existing values are copied with a ROW slice only (`%s`): the old block is narrower than the padded one whenever a label was added, so the assignment either raises or BROADCASTS a single old column into the new label's column" % ast.unparse(cp.targets[0])[:50],
+                              slot="pad-copy", positive=True))
+                continue
             corner = isinstance(sl, ast.Tuple) and len(sl.elts) == 2 and all(isinstance(x, ast.Slice) and (x.lower is None or const_value(x.lower) == 0) for x in sl.elts) and \
                 [ast.unparse(x.upper) if isinstance(x, ast.Slice) and x.upper is not None else None for x in sl.elts] == ["%s.shape[0]" % D_, "%s.shape[1]" % D_]
             obs.append(Ob("E12", clause, pf, cp, bad_ is None and corner,
